@@ -9,10 +9,13 @@ PROP = dict(
         dict(module="MCRouter", cfg="MCRouter_asbuilt.cfg", expect_violation="PropertyHolds", timeout=300),
         dict(module="MCRouter", cfg="MCRouter_nul.cfg", timeout=600),
         dict(module="MCRouter", cfg="MCRouter_mut_nul.cfg", expect_violation="PropertyHolds", timeout=300),
+        dict(module="MCDencoArray", cfg=dict(quick="MCDencoArray_quick.cfg", thorough="MCDencoArray_thorough.cfg"),
+             timeout=dict(quick=900, thorough=3000)),
+        dict(module="MCDencoArray", cfg="MCDencoArray_mut_nul.cfg", expect_violation="LayoutRefinesTrie", timeout=300),
         dict(module="MCRouter", cfg="MCRouter_thorough3.cfg", timeout=3000, tiers=["thorough"]),
     ],
     level_text="The Router module states C05 declaratively (sound, complete, static, literal-wins, total, order-independent) "
-               "next to a faithful model of the trie walk with backtracking; TLC checks model |= property exhaustively for all "
+               "next to a faithful model of the trie walk with backtracking, and DencoArray transcribes the double-array itself (build, arrange, findBase, makeSiblings, lookup over BASE/CHECK slots) and is checked to return exactly what the trie-level model returns for every small table and path (layout refines trie); TLC checks model |= property exhaustively for all "
                "tables of <=2 (quick) / <=3 (thorough) pool patterns and all paths up to 4 bytes over an alphabet that includes the "
                "reserved bytes, and validates every lookup of the real denco.Router (several hundred thousand per run, each table "
                "built in several insertion orders) against the declarative property.",
